@@ -180,6 +180,7 @@ class C11(SolverSuite):
                     ops.append({"a": "S0", "op": "setp", "field": "eps", "value": cur["eps"]})
                 ops.append({"a": "S0", "op": "solve"})
         ops = G.sprinkle_misc(rng, ops, "S0", prob=0.1)
+        ops = G.sprinkle_clone(rng, ops, "S0", prob=0.05, spec=spec)
         if rng.random() < 0.06 and "D" not in actors:
             lo8, up8 = objectives.gen_box(rng, 7)
             actors["D8"] = {"kind": "solver", "objective": objectives.gen_spec(rng, 7, lo8, up8, ["linear", "paraboloid"]), "lower": lo8, "upper": up8,
